@@ -153,6 +153,7 @@ def handleC11 (toks : List String) : String :=
         let tol := if xs.length = 13 then xs.getD 12 0 else transformTol
         show6 (transform tol axes norms c)
       | none => err "format"
+  | "initroute" :: keys => (initRoute keys).show
   | "axescheck" :: rest =>
     -- `tools.axes_check` on its own: 9 axes, 3 norms, optional tol
     match parseRats? rest with
